@@ -25,6 +25,13 @@ def _upd(screening, dynamic):
     return lambda m=None: uc.run_update(m, screening, dynamic, prefixes=("C11.",))
 
 
+def _polyak(mutate=None):
+    from checks import c13
+    r = c13.run_polyak(mutate)
+    r["obls"] = [o for o in r["obls"] if o.name.startswith("C11.")]
+    return r
+
+
 def run_seed(mutate=None):
     mut = [(o, n) for (m, o, n) in (mutate or []) if m == S_]
     L = instrument.load(S_, mutate=mut, vc=vcm.VC())
@@ -94,6 +101,7 @@ def units():
             Unit("update[no screening, dynamic A]", U, _upd(False, True), props=["C11"], timeout=900),
             Unit("update[screening, static A]", U, _upd(True, False), props=["C11"], timeout=900),
             Unit("_run_stage[save]", "tdgl.solver.runner:Runner._run_stage", lambda m=None: rc.run_stage(m, True, None, prefixes=P), props=["C11"], timeout=900),
+            Unit("get_induced_vector_potential", "tdgl.solver.solver:TDGLSolver.get_induced_vector_potential", lambda m=None: _polyak(m), props=["C11"], timeout=600),
             Unit("solve[seed]", "tdgl.solver.solver:TDGLSolver.solve", run_seed, props=["C11"], timeout=300)]
 
 
